@@ -41,7 +41,8 @@ def api_cfgs(run, depth):
             cfgs.append(("api-%d-%d" % (t, sl),
                          "SPECIFICATION Spec\nINVARIANT FlagsInStep\nINVARIANT LastWriteWins\nINVARIANT Emit\n"
                          "PROPERTY FrameCondition\nCHECK_DEADLOCK FALSE\n"
-                         "CONSTANTS T = %d DEPTH = %d SLICE = %d SLICES = %d\n" % (t, depth, sl, slices)))
+                         "CONSTANTS T = %d DEPTH = %d SLICE = %d SLICES = %d WRITES = %s\n"
+                         % (t, depth, sl, slices, "TRUE" if depth >= 3 else "FALSE")))
     return cfgs
 
 
@@ -69,6 +70,17 @@ def model_theorems(run, models):
         os.remove(path)
 
 
+REQUIRE = {   # vacuity guard: what a run of the check must have exercised at least this often (exit 2 otherwise)
+    "C01": {"roundtrip": 1000, "verdict-accept": 1000}, "C02": {"c02-judged": 1000}, "C03": {"verdict-accept": 1500},
+    "C04": {"verdict-reject": 2000, "verdict-either": 2000, "Unmarshal": 500}, "C05": {"verdict-reject": 2000, "Unmarshal": 500},
+    "C06": {"Read": 5000, "verdict-either": 100}, "C07": {"read-fragmented": 1000, "memo-compared": 1000},
+    "C08": {"read-faulty": 1000}, "C09": {"verdict-reject": 5000}, "C10": {"write-faulty": 5000, "WriteTo": 5000},
+    "C11": {"WriteN": 1000, "Diag": 2000}, "C12": {"Call": 10000}, "C13": {"Conc": 100}, "C14": {"Scribble": 1000, "Unmarshal": 1000},
+    "C15": {"VBIDec": 2000, "VBIEnc": 1000}, "C16": {"Read": 3000}, "C17": {"Diag": 1000, "Filter": 500}, "C18": {"CmpDiag": 300},
+    "C19": {"Diag": 10000},
+}
+
+
 def check(run, prop, claims, fams, rule, assumptions, level=LEVEL_MC, keep=None, drive_kw=None, extra_cov=None, models=None,
           extra_progs=None, randoms=0, histories=0):
     if models:
@@ -87,7 +99,7 @@ def check(run, prop, claims, fams, rule, assumptions, level=LEVEL_MC, keep=None,
            "distinct_nontrivial": distinct_classes(progs), "evaluations": len(progs), "rule": rule, "exhaustive": False}
     if extra_cov:
         cov.update(extra_cov)
-    return vlib.finish(run, prop, claims, notes, by_id(progs), cov, level, assumptions, sample_progs(progs))
+    return vlib.finish(run, prop, claims, notes, by_id(progs), cov, level, assumptions, sample_progs(progs), require=REQUIRE.get(prop))
 
 
 def frame_bytes(progs):
@@ -151,7 +163,14 @@ def random_histories(run, n, length):
         a = alpha[t]
         if not a["calls"]:
             continue
-        hist = [rng.choice(a["calls"]) for _ in range(rng.randrange(length // 2, length + 1))]
+        hist = []
+        for _ in range(rng.randrange(length // 2, length + 1)):
+            hist.append(rng.choice(a["calls"]))
+            r = rng.random()
+            if r < 0.12:                 # read-only operations in the middle of the history
+                hist.append({"op": "WriteTo", "h": 1})
+            elif r < 0.16:
+                hist.append({"op": "Diag", "h": 1})
         progs.append({"fam": "api", "meta": {"t": t, "kind": "random-history", "len": len(hist)},
                       "steps": a["setup"] + hist + [{"op": "WriteTo", "h": 1}, {"op": "Stream", "stream": 1, "from": 1},
                                                    {"op": "ReadPacket", "h": 9, "stream": 1}, {"op": "Diag", "h": 1}]})
@@ -213,7 +232,7 @@ def c06(run):
 
 
 def c07(run):
-    return check(run, "C07", {"C07"}, [("sched", ONE_PART)],
+    return check(run, "C07", {"C07"}, [("sched", TYPE_PARTS)],
                  "every corpus frame of at most 7 (thorough 10) bytes x every composition of its length into chunks x final "
                  "chunk with io.EOF or (0, io.EOF) after, plus (0,nil) reads at up to two positions; each Read is a StreamIO "
                  "step and the outcome must equal the outcome of the contiguous read",
@@ -222,7 +241,7 @@ def c07(run):
 
 
 def c08(run):
-    return check(run, "C08", {"C08"}, [("fault", ONE_PART)],
+    return check(run, "C08", {"C08"}, [("fault", TYPE_PARTS)],
                  "every corpus frame x every cut offset k in [0, L] x {EOF, error E} x {with the last bytes, on the next call} x "
                  "fragmentations of the delivered prefix", ["D5: errors.Is(err, E) / errors.Is(err, io.EOF) only"],
                  level="fault_enumeration", models=[("MC_Stream", MC_STREAM_CFG)])
@@ -291,7 +310,8 @@ def c18(run):
 
 
 def c19(run):
-    return check(run, "C19", {"C19"}, [("render", ONE_PART), ("mutants", TYPE_PARTS), ("own", ONE_PART), ("wf", ONE_PART)],
+    return check(run, "C19", {"C19"}, [("render", ONE_PART), ("mutants", TYPE_PARTS), ("own", ONE_PART), ("wf", ONE_PART),
+                                       ("frames", TYPE_PARTS)],
                  "String and Dump after every decode of the mutant corpus, on packets left by failed UnmarshalBinary, on zero "
                  "values of all 16 types, and for all 256 values of each rendered byte; seeded random damage to valid frames", ["D9"],
                  randoms=10000 if run.tier == "quick" else 200000)
